@@ -352,12 +352,14 @@ def main():
                 inconclusive.append("%s/%s: solver verdict %s" % (j["scenario"], g["name"], res["verdict"]))
             jr["groups"].append({k: res.get(k) for k in ("group", "form", "verdict", "n_items", "n_vars", "n_inverses", "n_terms", "z3_s", "twin", "z3new", "query_sha")})
         per_job.append(jr)
-        if len(samples) < 3 and j["groups"]:
+        if len(samples) < 400 and j["groups"]:
             cands = [(gi, x) for gi, x in enumerate(j["groups"]) if not (x["form"] == "R" and x.get("only_if_failed"))]
             cands.sort(key=lambda c: -(len(c[1]["items"]) + len(c[1].get("raw", []))))
             if cands:
                 gi, g = cands[0]
                 samples.append({"scenario": j["scenario"], "shape": j.get("shape"), "params": j.get("params"), "concrete": j.get("concrete"), "group": g["name"], "form": g["form"], "claim": g["claim"], "items": ([i["name"] for i in g["items"]] + [q["name"] for q in g.get("raw", [])])[:12], "n_vars": len(g["vars"]), "vars_head": g["vars"][:12], "verdict": results[gkey(f, gi, g)]["verdict"], "path_conditions_head": j.get("path_conditions", [])[:4]})
+    # three written-out samples: those with the most solver-decided items, first come first among equals
+    samples = sorted(samples, key=lambda x: -min(len(x["items"]), 12))[:3]
     # --- replay violations natively
     reproduced = []
     replay_cache = {}
